@@ -247,6 +247,7 @@ class World:
             argv.append("-r")
             if op["mode"] == "add_ignores":
                 argv.append("--add-ignores")
+        argv += list(op.get("extra_args", []))
         argv.append(op.get("target") or self.root)
         self.clock.reset()
         self.tokens.begin("c16")
@@ -278,7 +279,7 @@ class World:
         lt = Lifetime(self)
         self.lifetimes += 1
         try:
-            return lt.call({"op": "probe", "enable": enable, "disable": disable, "target": target})
+            return lt.call({"op": "probe", "enable": enable, "disable": disable, "target": target, "extra_args": self.spec.get("extra_args", [])})
         finally:
             lt.close()
 
